@@ -45,6 +45,25 @@ type Writer struct {
 	Fired      bool
 	AfterFault int // calls made after the fault fired
 	Yield      func()
+	// Err is the error a failing call returns (nil = ErrInjected).  Real
+	// destinations fail with all kinds of values, among them the standard
+	// io.ErrShortWrite (bufio.Writer after a short write of what it wraps).
+	Err error
+}
+
+// Storm is the panic value of a destination that has failed for good and is
+// called again and again: the caller retries without making progress.
+type Storm struct{ Calls int }
+
+// StormLimit is the number of calls after a permanent failure at which the
+// simulated destination gives up.
+const StormLimit = 20000
+
+func (w *Writer) err() error {
+	if w.Err != nil {
+		return w.Err
+	}
+	return ErrInjected
 }
 
 // NewWriter returns a writer that never fails.
@@ -63,8 +82,13 @@ func (w *Writer) Write(p []byte) (int, error) {
 	}
 	if w.Fired {
 		w.AfterFault++
-		w.Calls = append(w.Calls, WriteCall{Off: off, Len: len(p), Failed: true})
-		return 0, ErrInjected
+		if w.AfterFault > StormLimit {
+			panic(Storm{w.AfterFault})
+		}
+		if w.AfterFault < 64 {
+			w.Calls = append(w.Calls, WriteCall{Off: off, Len: len(p), Failed: true})
+		}
+		return 0, w.err()
 	}
 	end := off + int64(len(p))
 	hit := w.FailAt >= 0 && w.FailAt < end
@@ -93,7 +117,7 @@ func (w *Writer) Write(p []byte) (int, error) {
 	w.Disk = append(w.Disk, p[:n]...)
 	w.Fired = true
 	w.Calls = append(w.Calls, WriteCall{Off: off, Len: len(p), Accepted: n, Failed: true})
-	return n, ErrInjected
+	return n, w.err()
 }
 
 // ---- random access reader ---------------------------------------------------
